@@ -25,6 +25,163 @@ info('C18',
      not_decided=['eval(repr(x)) equality (needs execution)', 'out-of-range slicing (the property claims in-range only)'])
 
 
+def _slice_renderings(stmts, xp):
+    """abstract interpretation of the string built by _format_slice: returns
+    [(step_is_None | None, pieces, return node)] where pieces are constant strings and
+    ('part', attr) for ``'' if x.attr is None else bbrepr(x.attr)``, ('shown', attr) for
+    ``bbrepr(x.attr)``, ('?', text) for anything else"""
+    outs = []
+
+    def attr_of(e):
+        if isinstance(e, ast.Attribute) and is_name(e.value, xp) and e.attr in ('start', 'stop', 'step'):
+            return e.attr
+        return None
+
+    def none_test(t, env):
+        """-> (attr, True when the test holds for None)"""
+        if isinstance(t, ast.Compare) and len(t.ops) == 1 and isinstance(t.comparators[0], ast.Constant) \
+                and t.comparators[0].value is None and isinstance(t.ops[0], (ast.Is, ast.IsNot)):
+            left = t.left
+            if is_name(left) and isinstance(env.get(left.id), tuple) and env[left.id][0] == 'attr':
+                return env[left.id][1], isinstance(t.ops[0], ast.Is)
+            a = attr_of(left)
+            if a:
+                return a, isinstance(t.ops[0], ast.Is)
+        return None, None
+
+    def ev(e, env, lambdas, assume):
+        if isinstance(e, ast.Constant) and isinstance(e.value, str):
+            return [e.value] if e.value else []
+        if isinstance(e, ast.BinOp) and isinstance(e.op, ast.Add):
+            return ev(e.left, env, lambdas, assume) + ev(e.right, env, lambdas, assume)
+        if isinstance(e, ast.Name) and isinstance(env.get(e.id), list):
+            return list(env[e.id])
+        if isinstance(e, ast.JoinedStr):
+            out = []
+            for v in e.values:
+                if isinstance(v, ast.FormattedValue):
+                    if v.conversion != -1 and v.conversion != 115 or v.format_spec is not None:
+                        out.append(('?', norm(v)))
+                    else:
+                        out += ev(v.value, env, lambdas, assume)
+                else:
+                    out += ev(v, env, lambdas, assume)
+            return out
+        if isinstance(e, ast.IfExp):
+            a, holds_for_none = none_test(e.test, env)
+            if a:
+                if_none, if_set = (e.body, e.orelse) if holds_for_none else (e.orelse, e.body)
+                if a in assume:
+                    return ev(if_none if assume[a] else if_set, env, lambdas, assume)
+                pn, ps = ev(if_none, env, lambdas, assume), ev(if_set, env, lambdas, assume)
+                if pn == [] and ps == [('shown', a)]:
+                    return [('part', a)]
+            return [('?', norm(e))]
+        if isinstance(e, ast.Call):
+            if is_name(e.func, 'bbrepr') and len(e.args) == 1 and not e.keywords:
+                a = attr_of(e.args[0])
+                if a is None and is_name(e.args[0]) and isinstance(env.get(e.args[0].id), tuple):
+                    a = env[e.args[0].id][1]
+                if a:
+                    return [('shown', a)]
+            if is_name(e.func) and e.func.id in lambdas and len(e.args) == 1 and not e.keywords:
+                lam = lambdas[e.func.id]
+                a = attr_of(e.args[0])
+                if a and len(lam.args.args) == 1:
+                    env2 = dict(env)
+                    env2[lam.args.args[0].arg] = ('attr', a)
+                    return ev(lam.body, env2, lambdas, assume)
+            if isinstance(e.func, ast.Attribute) and e.func.attr == 'join' and isinstance(e.func.value, ast.Constant) \
+                    and isinstance(e.func.value.value, str) and len(e.args) == 1 \
+                    and isinstance(e.args[0], (ast.List, ast.Tuple)):
+                out = []
+                for i, x in enumerate(e.args[0].elts):
+                    if i and e.func.value.value:
+                        out.append(e.func.value.value)
+                    out += ev(x, env, lambdas, assume)
+                return out
+        if isinstance(e, ast.BinOp) and isinstance(e.op, ast.Mod) and isinstance(e.left, ast.Constant) \
+                and isinstance(e.left.value, str):
+            import re as _re
+            args = list(e.right.elts) if isinstance(e.right, ast.Tuple) else [e.right]
+            chunks = _re.split(r'(%s)', e.left.value)
+            if sum(1 for c in chunks if c == '%s') == len(args) and '%' not in ''.join(c for c in chunks if c != '%s'):
+                out = []
+                for c in chunks:
+                    if c == '%s':
+                        out += ev(args.pop(0), env, lambdas, assume)
+                    elif c:
+                        out.append(c)
+                return out
+        return [('?', norm(e))]
+
+    def run(stmts, env, lambdas, assume, depth=0):
+        """returns True when every path through stmts returned"""
+        for i, st in enumerate(stmts):
+            if isinstance(st, ast.Assign) and len(st.targets) == 1 and is_name(st.targets[0]):
+                if isinstance(st.value, ast.Lambda):
+                    lambdas = dict(lambdas)
+                    lambdas[st.targets[0].id] = st.value
+                else:
+                    env = dict(env)
+                    env[st.targets[0].id] = ev(st.value, env, lambdas, assume)
+                continue
+            if isinstance(st, ast.AugAssign) and is_name(st.target) and isinstance(st.op, ast.Add) \
+                    and isinstance(env.get(st.target.id), list):
+                env = dict(env)
+                env[st.target.id] = env[st.target.id] + ev(st.value, env, lambdas, assume)
+                continue
+            if isinstance(st, ast.Return):
+                sn = assume.get('step')
+                outs.append((sn, ev(st.value, env, lambdas, assume) if st.value is not None else [('?', 'None')], st))
+                return True
+            if isinstance(st, ast.If):
+                a, holds_for_none = none_test(st.test, env)
+                rest = stmts[i + 1:]
+                branches = []
+                if a and a in assume:
+                    taken = st.body if assume[a] == holds_for_none else st.orelse
+                    branches.append((taken, assume))
+                elif a:
+                    a1 = dict(assume)
+                    a1[a] = holds_for_none
+                    a2 = dict(assume)
+                    a2[a] = not holds_for_none
+                    branches += [(st.body, a1), (st.orelse, a2)]
+                else:
+                    outs.append((None, [('?', 'branch on ' + norm(st.test))], st))
+                    return True
+                done = True
+                for body, asm in branches:
+                    done = run(list(body) + rest, env, lambdas, asm, depth + 1) and done
+                return done
+            if isinstance(st, (ast.Expr, ast.Pass)) and not (isinstance(st, ast.Expr) and isinstance(st.value, ast.Call)):
+                continue
+            outs.append((None, [('?', norm(st))], st))
+            return True
+        if depth == 0 or True:
+            outs.append((assume.get('step'), [('?', 'falls off the end')], stmts[-1] if stmts else None))
+        return False
+
+    run(stmts, {}, {}, {})
+    return outs
+
+
+def _resolve_step(pieces, step_none):
+    out = []
+    for pc in pieces:
+        if pc == ('part', 'step'):
+            if step_none:
+                continue
+            pc = ('shown', 'step')
+        if isinstance(pc, str) and out and isinstance(out[-1], str):
+            out[-1] += pc
+        else:
+            out.append(pc)
+    return out
+
+
+
 @rule('C18.1')
 def formatter_exhaustive(ctx):
     p = ctx.program
@@ -84,31 +241,21 @@ def formatter_exhaustive(ctx):
     # _format_slice
     su = ctx.unit('core._format_slice')
     xp = su.params[0]
-    fmts = [n.targets[0].id for n in su.own_nodes() if isinstance(n, ast.Assign) and is_name(n.targets[0]) and isinstance(n.value, ast.Lambda)]
-    f = fmts[0] if fmts else '?'
-    rets = [n for n in su.own_nodes() if isinstance(n, ast.Return)]
-    ok = any(matches(r.value, "%s(%s.start) + ':' + %s(%s.stop) + ':' + %s(%s.step)" % (f, xp, f, xp, f, xp)) for r in rets) and \
-        any(matches(r.value, "%s(%s.start) + ':' + %s(%s.stop)" % (f, xp, f, xp)) for r in rets) and \
-        any(isinstance(n, ast.If) and matches(n.test, 'type(%s) is not slice' % xp) for n in su.node.body)
-    ctx.ob(ok, su, 'slices render as start:stop[:step] with None parts empty; other indexes by bbrepr')
-    fm = [n for n in su.own_nodes() if isinstance(n, ast.Lambda)]
-    ok = len(fm) == 1 and isinstance(fm[0].body, ast.IfExp)
-    if ok:
-        e = fm[0].body
-        v = fm[0].args.args[0].arg
-        t = e.test
-        none_test = isinstance(t, ast.Compare) and is_name(t.left, v) and isinstance(t.comparators[0], ast.Constant) \
-            and t.comparators[0].value is None
-        if none_test and isinstance(t.ops[0], ast.Is):
-            empty, shown = e.body, e.orelse
-        elif none_test and isinstance(t.ops[0], ast.IsNot):
-            empty, shown = e.orelse, e.body
-        else:
-            empty = shown = None
-        ok = empty is not None and isinstance(empty, ast.Constant) and empty.value == '' and isinstance(shown, ast.Call) \
-            and is_name(shown.args[0], v)
-    ctx.ob(ok, su, 'exactly None is rendered as an empty slice part (0 and other falsy bounds are kept): %s' % [norm(x) for x in fm],
-           '' if ok else 'a falsy but meaningful bound (0) would vanish from the repr')
+    guard = [n for n in su.node.body if isinstance(n, ast.If) and matches(n.test, 'type(%s) is not slice' % xp)
+             and len(n.body) == 1 and isinstance(n.body[0], ast.Return) and matches(n.body[0].value, 'bbrepr(%s)' % xp)]
+    ctx.ob(len(guard) == 1, su, 'indexes that are not slices render by bbrepr')
+    rest = [st for st in su.node.body if st not in guard]
+    outs = _slice_renderings(rest, xp)
+    ctx.require(outs, '_format_slice: no rendering path found')
+    want = {True: [('part', 'start'), ':', ('part', 'stop')],
+            False: [('part', 'start'), ':', ('part', 'stop'), ':', ('shown', 'step')]}
+    for step_none, pieces, node in outs:
+        for sn in ([step_none] if step_none is not None else [True, False]):
+            got = _resolve_step(pieces, sn)
+            ok = got == want[sn]
+            ctx.ob(ok, su, 'a slice with step %s renders as %s with None parts empty (0 and other falsy bounds kept)'
+                   % ('None' if sn else 'given', 'start:stop' if sn else 'start:stop:step'),
+                   '' if ok else 'renders as %s' % (got,), node=node)
     # _format_path: P args by repr, T chunks by _format_t
     fu = ctx.unit('core._format_path')
     jn = [n for n in fu.own_nodes() if isinstance(n, ast.BinOp) and isinstance(n.op, ast.Mod) and isinstance(n.left, ast.Constant)
@@ -405,7 +552,7 @@ def path_flattening(ctx):
     ctx.ob(len(calls) == 2, u, 'two ways to extend: splice a recorded step, or add a path step')
     sp = [c for c in calls if isinstance(c.args[1], ast.Subscript)]
     pp = [c for c in calls if isinstance(c.args[1], ast.Constant)]
-    bs = match(sp[0], '_t_child(%s, $sub[$i], $sub[$i + 1])' % ptv) if len(sp) == 1 else None
+    bs = match(sp[0], '_t_child(%s, $$sub[$i], $$sub[$i + 1])' % ptv) if len(sp) == 1 else None
     ctx.ob(bs is not None, u, 'spliced steps keep their op and argument: %s' % [norm(c) for c in sp])
     ok = len(pp) == 1 and pp[0].args[1].value == 'P' and is_name(lp[0].target) and is_name(pp[0].args[2], lp[0].target.id) and is_name(pp[0].args[0], ptv)
     ctx.ob(ok, u, "any other part becomes a 'P' step holding the part itself: %s" % [norm(c) for c in pp])
@@ -416,7 +563,7 @@ def path_flattening(ctx):
     ok = len(g) == 1 and isinstance(g[0].body[0], ast.Raise)
     ctx.ob(ok, u, 'only T-rooted expressions can be spliced')
     wl = [n for n in ast.walk(lp[0]) if isinstance(n, ast.While)]
-    ok = len(wl) == 1 and bs is not None and matches(wl[0].test, '%s < len(%s)' % (bs['i'], bs['sub']))
+    ok = len(wl) == 1 and bs is not None and matches(wl[0].test, '%s < len(%s)' % (bs['i'], norm(bs['sub'])))
     ctx.ob(ok, u, 'every step of a spliced expression is copied: %s' % [norm(x.test) for x in wl])
     fin = u.node.body[-1]
     ctx.ob(matches(fin, 'self.path_t = %s' % ptv), u, 'the result is stored once, at the end')
